@@ -11,28 +11,301 @@ def sumSizes (items : List Item) (ids : List Nat) : Nat :=
 /-- ids are unique (request ids are positions) -/
 def UniqueIds (items : List Item) : Prop := (items.map (·.id)).Nodup
 
+theorem fsum_eq (l : List Nat) : l.foldl (· + ·) 0 = l.sum := List.sum_eq_foldl.symm
+
+theorem overhead_eq : OVERHEAD = 10 := rfl
+
+/-- lookup of the accounted size by id -/
+def sizeOf (items : List Item) (i : Nat) : Nat := ((items.find? (·.id == i)).map (·.size)).getD 0
+
+theorem sumSizes_eq (items : List Item) (ids : List Nat) : sumSizes items ids = (ids.map (sizeOf items)).sum := by
+  unfold sumSizes; rw [fsum_eq]; rfl
+
+theorem sizeOf_of_mem (items : List Item) (hu : UniqueIds items) (it : Item) (h : it ∈ items) :
+    sizeOf items it.id = it.size := by
+  unfold UniqueIds at hu
+  induction items with
+  | nil => cases h
+  | cons a t ih =>
+    simp only [List.map_cons, List.nodup_cons] at hu
+    unfold sizeOf
+    rcases List.mem_cons.1 h with rfl | h'
+    · simp
+    · have hne : a.id ≠ it.id := by
+        intro e; apply hu.1; rw [e]; exact List.mem_map_of_mem h'
+      have : (a.id == it.id) = false := by simpa using hne
+      simp only [List.find?_cons, this]
+      exact ih hu.2 h'
+
+theorem foldl_inv {σ α : Type} (P : σ → Prop) (step : σ → α → σ) (l : List α) :
+    ∀ st, P st → (∀ st x, x ∈ l → P st → P (step st x)) → P (l.foldl step st) := by
+  induction l with
+  | nil => intro st h _; exact h
+  | cons a t ih =>
+    intro st h hs
+    simp only [List.foldl_cons]
+    exact ih _ (hs st a (List.mem_cons_self) h) (fun st x hx hp => hs st x (List.mem_cons_of_mem _ hx) hp)
+
+/-- the closed groups followed by the current one, in request order -/
+def flat (st : List (List Nat) × List Nat × Nat) : List Nat := st.1.reverse.flatten ++ st.2.1.reverse
+
+theorem flat_step (C : Nat) (st : List (List Nat) × List Nat × Nat) (x : Nat × Nat) :
+    flat (groupStep C st x) = flat st ++ [x.1] := by
+  obtain ⟨done, cur, sz⟩ := st
+  unfold groupStep flat
+  simp only []
+  split <;> simp
+
+theorem flat_foldl (C : Nat) (l : List (Nat × Nat)) : ∀ st, flat (l.foldl (groupStep C) st) = flat st ++ l.map (·.1) := by
+  induction l with
+  | nil => intro st; simp
+  | cons a t ih => intro st; simp [ih, flat_step]
+
+/-- accounting invariant of the grouping loop -/
+def GInv (C : Nat) (f : Nat → Nat) (st : List (List Nat) × List Nat × Nat) : Prop :=
+  st.2.2 = OVERHEAD + (st.2.1.map f).sum ∧ (st.2.1 = [] ∨ st.2.2 ≤ C) ∧
+  ∀ g ∈ st.1, g = [] ∨ OVERHEAD + (g.map f).sum ≤ C
+
+theorem ginv_step (C : Nat) (f : Nat → Nat) (st : List (List Nat) × List Nat × Nat) (x : Nat × Nat)
+    (hx : x.2 = f x.1) (hfit : OVERHEAD + x.2 ≤ C) (h : GInv C f st) : GInv C f (groupStep C st x) := by
+  obtain ⟨done, cur, sz⟩ := st
+  obtain ⟨h1, h2, h3⟩ := h
+  simp only at h1 h2 h3
+  unfold groupStep GInv
+  simp only []
+  split
+  · refine ⟨by simp [hx], Or.inr hfit, ?_⟩
+    intro g hg
+    rcases List.mem_cons.1 hg with rfl | hg
+    · rcases h2 with h2 | h2
+      · left; simp [h2]
+      · right; rw [List.map_reverse, List.sum_reverse]; omega
+    · exact h3 g hg
+  · refine ⟨by simp [hx]; omega, Or.inr (by show sz + x.2 ≤ C; omega), h3⟩
+
+theorem plan_eq (C : Nat) (items : List Item) :
+    plan C items =
+      (let st := (((items.filter (!·.error)).filter (fun i => !(i.size + OVERHEAD > C))).map fun i => (i.id, i.size)).foldl
+          (groupStep C) ([], [], OVERHEAD)
+       { groups := ((st.2.1.reverse :: st.1).reverse).filter (· ≠ []),
+         fragmented := ((items.filter (!·.error)).filter (fun i => i.size + OVERHEAD > C)).map (·.id) }) := rfl
+
+theorem take_drop_glue {α : Type} (v : List α) (off k : Nat) :
+    (v.drop off).take k ++ v.drop (off + ((v.drop off).take k).length) = v.drop off := by
+  rw [← List.drop_drop]
+  generalize v.drop off = w
+  by_cases h : k ≤ w.length
+  · rw [List.length_take, Nat.min_eq_left h, List.take_append_drop]
+  · rw [List.take_of_length_le (by omega)]; simp
+
+theorem writeSegments_tile (segSize : Nat) (hs : 0 < segSize) (value : Bytes) :
+    ∀ fuel off, off ≤ value.length → value.length - off < fuel →
+      ((writeSegments segSize value fuel off).map (·.2)).flatten = value.drop off ∧
+      (∀ p ∈ writeSegments segSize value fuel off, p.2 ≠ [] ∧ p.2.length ≤ segSize) ∧
+      (∀ i (hi : i < (writeSegments segSize value fuel off).length),
+        ((writeSegments segSize value fuel off)[i]).1 =
+          off + (((writeSegments segSize value fuel off).take i).map (·.2.length)).sum) := by
+  intro fuel
+  induction fuel with
+  | zero => intro off _ h; omega
+  | succ fuel ih =>
+    intro off hle hf
+    unfold writeSegments
+    by_cases hge : off ≥ value.length
+    · have : off = value.length := by omega
+      simp [this]
+    · simp only [hge, if_false]
+      have hlen : ((value.drop off).take segSize).length = min segSize (value.length - off) := by
+        simp [List.length_take, List.length_drop]
+      have hpos : 1 ≤ ((value.drop off).take segSize).length := by rw [hlen]; omega
+      obtain ⟨ih1, ih2, ih3⟩ := ih (off + ((value.drop off).take segSize).length) (by rw [hlen]; omega) (by omega)
+      refine ⟨?_, ?_, ?_⟩
+      · simp only [List.map_cons, List.flatten_cons, ih1]
+        exact take_drop_glue value off segSize
+      · intro p hp
+        rcases List.mem_cons.1 hp with rfl | hp
+        · refine ⟨?_, ?_⟩
+          · intro h; simp only [] at h; rw [h] at hpos; simp at hpos
+          · simp only []; rw [hlen]; omega
+        · exact ih2 p hp
+      · intro i hi
+        cases i with
+        | zero => simp
+        | succ i =>
+          simp only [List.length_cons, Nat.add_lt_add_iff_right] at hi
+          have := ih3 i hi
+          simp only [List.getElem_cons_succ, List.take_succ_cons, List.map_cons, List.sum_cons]
+          omega
+
+theorem readFragments_tile (value : Bytes) :
+    ∀ fuel sched off, off < value.length → value.length - off < fuel →
+      (readFragments value sched fuel off).2 = value.drop off ∧
+      (readFragments value sched fuel off).1.head? = some off ∧
+      (∀ o ∈ (readFragments value sched fuel off).1, off ≤ o) ∧
+      (readFragments value sched fuel off).1.Pairwise (· < ·) := by
+  intro fuel
+  induction fuel with
+  | zero => intro _ off _ h; omega
+  | succ fuel ih =>
+    intro sched off hlt hf
+    unfold readFragments
+    simp only []
+    generalize hk : max 1 (sched.headD (value.length - off)) = k
+    have hk1 : 1 ≤ k := by omega
+    have hlen : ((value.drop off).take k).length = min k (value.length - off) := by
+      simp [List.length_take, List.length_drop]
+    have hpos : 1 ≤ ((value.drop off).take k).length := by rw [hlen]; omega
+    split
+    · rename_i hge
+      refine ⟨?_, by simp, by simp, by simp⟩
+      simp only []
+      apply List.take_of_length_le
+      rw [hlen] at hge
+      simp only [List.length_drop]; omega
+    · rename_i hge
+      obtain ⟨ih1, ih2, ih3, ih4⟩ := ih (sched.drop 1) (off + ((value.drop off).take k).length) (by omega) (by omega)
+      refine ⟨?_, by simp, ?_, ?_⟩
+      · simp only [ih1]
+        exact take_drop_glue value off k
+      · intro o ho
+        rcases List.mem_cons.1 ho with rfl | ho
+        · omega
+        · have := ih3 o ho; omega
+      · simp only [List.pairwise_cons]
+        refine ⟨?_, ih4⟩
+        intro o ho
+        have := ih3 o ho; omega
+
+theorem filter_ge_split (p q : List Nat) (a : Nat) (hs : (p ++ q).Pairwise (· < ·)) (hl : p.getLast? = some a) :
+    (p ++ q).filter (· ≥ a + 1) = q := by
+  obtain ⟨ys, rfl⟩ := List.getLast?_eq_some_iff.1 hl
+  obtain ⟨h1, h2, h3⟩ := List.pairwise_append.1 hs
+  obtain ⟨_, _, h4⟩ := List.pairwise_append.1 h1
+  rw [List.filter_append]
+  have e1 : (ys ++ [a]).filter (· ≥ a + 1) = [] := by
+    rw [List.filter_eq_nil_iff]
+    intro x hx
+    rcases List.mem_append.1 hx with hx | hx
+    · have := h4 x hx a (by simp); simp; omega
+    · simp at hx; simp [hx]
+  have e2 : q.filter (· ≥ a + 1) = q := by
+    rw [List.filter_eq_self]
+    intro x hx
+    have := h3 a (by simp) x hx
+    simp; omega
+  rw [e1, e2]; rfl
+
+theorem upload_gen (insts : List Nat) (hs : insts.Pairwise (· < ·)) :
+    ∀ fuel sched start, (insts.filter (· ≥ start)).length < fuel →
+      upload insts sched fuel start = insts.filter (· ≥ start) := by
+  intro fuel
+  induction fuel with
+  | zero => intro _ _ h; omega
+  | succ fuel ih =>
+    intro sched start hf
+    unfold upload
+    simp only []
+    generalize htodo : insts.filter (· ≥ start) = todo at hf
+    generalize hk : max 1 (sched.headD todo.length) = k
+    have hk1 : 1 ≤ k := by omega
+    split
+    · rename_i hnone
+      rw [List.getLast?_eq_none_iff] at hnone
+      cases todo with
+      | nil => rfl
+      | cons a t =>
+        have : ((a :: t).take k).length = 0 := by rw [hnone]; rfl
+        simp [List.length_take] at this; omega
+    · rename_i last hlast
+      split
+      · rename_i hge
+        apply List.take_of_length_le
+        simp only [List.length_take] at hge; omega
+      · rename_i hge
+        simp only [List.length_take] at hge
+        have hlastmem : last ∈ todo := List.mem_of_mem_take (List.mem_of_getLast? hlast)
+        have hstart : start ≤ last := by
+          rw [← htodo] at hlastmem
+          have := (List.mem_filter.1 hlastmem).2
+          simpa using this
+        have hsorted : (todo.take k ++ todo.drop k).Pairwise (· < ·) := by
+          rw [List.take_append_drop, ← htodo]; exact hs.filter _
+        have hsplit := filter_ge_split _ _ _ hsorted hlast
+        rw [List.take_append_drop, ← htodo, List.filter_filter] at hsplit
+        rw [htodo] at hsplit
+        have hcongr : insts.filter (fun a => decide (a ≥ last + 1) && decide (a ≥ start)) = insts.filter (· ≥ last + 1) := by
+          apply List.filter_congr
+          intro x _
+          by_cases hx : x ≥ last + 1
+          · have : x ≥ start := by omega
+            simp [hx, this]
+          · simp [hx]
+        rw [hcongr] at hsplit
+        rw [ih (sched.drop 1) (last + 1) (by rw [hsplit]; simp only [List.length_drop]; omega), hsplit,
+          List.take_append_drop]
+
 -- PROPERTY THEOREMS
 
 /-- the generated overhead constant is what the size arithmetic below needs -/
 theorem overhead_value : 8 ≤ OVERHEAD := by
-  sorry
+  decide
 
 /-- every request without an error is placed in exactly one packet, in request order:
     the multi-service groups followed by the fragmented ones are a permutation-free partition of the live ids -/
 theorem plan_partition (C : Nat) (items : List Item) :
     (plan C items).groups.flatten = ((items.filter (!·.error)).filter (fun i => !(i.size + OVERHEAD > C))).map (·.id) ∧
     (plan C items).fragmented = ((items.filter (!·.error)).filter (fun i => i.size + OVERHEAD > C)).map (·.id) := by
-  sorry
+  rw [plan_eq]
+  refine ⟨?_, rfl⟩
+  simp only []
+  rw [List.flatten_filter_ne_nil]
+  have := flat_foldl C ((((items.filter (!·.error)).filter (fun i => !(i.size + OVERHEAD > C))).map fun i => (i.id, i.size))) ([], [], OVERHEAD)
+  simp only [flat] at this
+  simp only [List.reverse_cons, List.flatten_append, List.flatten_cons, List.flatten_nil, List.append_nil]
+  rw [this]
+  simp [Function.comp_def]
 
 /-- no empty multi-service packet is ever produced -/
 theorem plan_no_empty_group (C : Nat) (items : List Item) : ∀ g ∈ (plan C items).groups, g ≠ [] := by
-  sorry
+  intro g hg
+  rw [plan_eq] at hg
+  simp only [] at hg
+  have := (List.mem_filter.1 hg).2
+  simpa using this
 
 /-- every multi-service packet respects the connection size by the loop's own accounting:
     overhead + the sizes of its members ≤ C -/
 theorem plan_groups_fit (C : Nat) (items : List Item) (hu : UniqueIds items) :
     ∀ g ∈ (plan C items).groups, OVERHEAD + sumSizes items g ≤ C := by
-  sorry
+  intro g hg
+  rw [plan_eq] at hg
+  simp only [] at hg
+  have hinv := foldl_inv (GInv C (sizeOf items)) (groupStep C)
+    ((((items.filter (!·.error)).filter (fun i => !(i.size + OVERHEAD > C))).map fun i => (i.id, i.size)))
+    ([], [], OVERHEAD) (by simp [GInv]) (by
+      intro st x hx hst
+      obtain ⟨it, hit, rfl⟩ := List.mem_map.1 hx
+      have h1 := List.mem_filter.1 hit
+      have h2 := List.mem_filter.1 h1.1
+      apply ginv_step C _ st _ _ _ hst
+      · exact (sizeOf_of_mem items hu it h2.1).symm
+      · have := h1.2; simp at this; simp only []; omega)
+  generalize List.foldl (groupStep C) ([], [], OVERHEAD) _ = st at hg hinv
+  obtain ⟨done, cur, sz⟩ := st
+  simp only [] at hg
+  obtain ⟨hmem, hne⟩ := List.mem_filter.1 hg
+  have hne : g ≠ [] := by simpa using hne
+  obtain ⟨h1, h2, h3⟩ := hinv
+  simp only at h1 h2 h3
+  rw [sumSizes_eq]
+  rw [List.mem_reverse] at hmem
+  rcases List.mem_cons.1 hmem with rfl | hmem
+  · rcases h2 with h2 | h2
+    · simp [h2] at hne
+    · rw [List.map_reverse, List.sum_reverse]; omega
+  · rcases h3 g hmem with h | h
+    · exact absurd h hne
+    · exact h
 
 /-- reads: the real reply of a group (service header 4 + count 2 + per member: offset 2, header 4, type ≤ 4, data)
     is within the accounted size when every request message is at least 10 bytes (sequence 2 + service 1 +
@@ -40,13 +313,33 @@ theorem plan_groups_fit (C : Nat) (items : List Item) (hu : UniqueIds items) :
 theorem read_reply_fits (datas msgLens : List Nat) (hl : datas.length = msgLens.length) (hm : ∀ m ∈ msgLens, 10 ≤ m) :
     6 + ((datas.map (· + 10)).foldl (· + ·) 0) ≤
       OVERHEAD + (((datas.zip msgLens).map fun p => p.1 + p.2 + 2).foldl (· + ·) 0) := by
-  sorry
+  rw [fsum_eq, fsum_eq, overhead_eq]
+  suffices h : ((datas.map (· + 10))).sum ≤ (((datas.zip msgLens).map fun p => p.1 + p.2 + 2)).sum by omega
+  induction datas generalizing msgLens with
+  | nil => simp
+  | cons d ds ih =>
+    cases msgLens with
+    | nil => simp at hl
+    | cons m ms =>
+      simp only [List.length_cons, Nat.add_right_cancel_iff] at hl
+      have := ih ms hl (fun x hx => hm x (List.mem_cons_of_mem _ hx))
+      have := hm m List.mem_cons_self
+      simp only [List.map_cons, List.zip_cons_cons, List.sum_cons]
+      omega
 
 /-- writes: the real multi-service request (service 1 + path 5 + count 2 + per member: offset 2 and the message
     without its 2-byte sequence count) is within the accounted size -/
 theorem write_request_fits (lens : List Nat) (hm : ∀ m ∈ lens, 2 ≤ m) :
     8 + ((lens.map fun l => 2 + (l - 2)).foldl (· + ·) 0) ≤ OVERHEAD + (lens.foldl (· + ·) 0) := by
-  sorry
+  rw [fsum_eq, fsum_eq, overhead_eq]
+  suffices h : (lens.map fun l => 2 + (l - 2)).sum ≤ lens.sum by omega
+  induction lens with
+  | nil => simp
+  | cons m ms ih =>
+    have := ih (fun x hx => hm x (List.mem_cons_of_mem _ hx))
+    have := hm m List.mem_cons_self
+    simp only [List.map_cons, List.sum_cons]
+    omega
 
 /-- fragmented write: offsets start at 0, are contiguous and non-overlapping, every fragment is non-empty and at
     most the segment size, and together they are exactly the value -/
@@ -55,7 +348,14 @@ theorem write_fragments_tile (segSize : Nat) (hs : 0 < segSize) (value : Bytes) 
     (∀ p ∈ writeFragments segSize value, p.2 ≠ [] ∧ p.2.length ≤ segSize) ∧
     (∀ i (hi : i < (writeFragments segSize value).length),
         ((writeFragments segSize value)[i]).1 = (((writeFragments segSize value).take i).map (·.2.length)).foldl (· + ·) 0) := by
-  sorry
+  have hne : segSize ≠ 0 := by omega
+  have hw : writeFragments segSize value = writeSegments segSize value (value.length + 1) 0 := by
+    unfold writeFragments; rw [if_neg hne]
+  rw [hw]
+  obtain ⟨h1, h2, h3⟩ := writeSegments_tile segSize hs value (value.length + 1) 0 (Nat.zero_le _) (by omega)
+  refine ⟨by simpa using h1, h2, ?_⟩
+  intro i hi
+  rw [fsum_eq, h3 i hi, Nat.zero_add]
 
 /-- fragmented read: whatever fragment lengths the controller chooses, each follow-up asks for the offset equal
     to the number of bytes already received, the first for offset 0, and the reassembly is exactly the value -/
@@ -63,12 +363,18 @@ theorem read_fragments_tile (value : Bytes) (hv : value ≠ []) (sched : List Na
     (readFragments value sched (value.length + 1) 0).2 = value ∧
     (readFragments value sched (value.length + 1) 0).1.head? = some 0 ∧
     (readFragments value sched (value.length + 1) 0).1.Pairwise (· < ·) := by
-  sorry
+  have hpos : 0 < value.length := List.length_pos_iff.2 hv
+  obtain ⟨h1, h2, _, h4⟩ := readFragments_tile value (value.length + 1) sched 0 hpos (by omega)
+  exact ⟨by simpa using h1, h2, h4⟩
 
 /-- symbol-list upload: for ANY pagination chosen by the controller (each page at least one symbol) the uploaded
     list is exactly the controller's list, in order, nothing missing or duplicated -/
 theorem upload_complete (insts : List Nat) (hs : insts.Pairwise (· < ·)) (sched : List Nat) :
     upload insts sched (insts.length + 1) 0 = insts := by
-  sorry
+  rw [upload_gen insts hs (insts.length + 1) sched 0
+    (Nat.lt_succ_of_le (List.length_filter_le _ _))]
+  rw [List.filter_eq_self]
+  intro a _
+  simp
 
 end Pycomm.Lgx.K
